@@ -80,11 +80,15 @@ Eq(a, b) == Cmp(a, b) = 0
 RECURSIVE Pow(_, _)
 Pow(a, n) == IF n = 0 THEN One ELSE Mul(a, Pow(a, n - 1))
 
+(* TLC evaluates [i \in S |-> e] lazily and re-evaluates e on every application; Tup forces a
+   function with domain 1..n into an explicit tuple so that nested constructions stay linear. *)
+Tup(f) == f \o <<>>
+
 (* vectors = sequences of rationals *)
-VAdd(v, w) == [i \in 1..Len(v) |-> Add(v[i], w[i])]
-VSub(v, w) == [i \in 1..Len(v) |-> Sub(v[i], w[i])]
-VScale(c, v) == [i \in 1..Len(v) |-> Mul(c, v[i])]
-VZero(n) == [i \in 1..n |-> Zero]
+VAdd(v, w) == Tup([i \in 1..Len(v) |-> Add(v[i], w[i])])
+VSub(v, w) == Tup([i \in 1..Len(v) |-> Sub(v[i], w[i])])
+VScale(c, v) == Tup([i \in 1..Len(v) |-> Mul(c, v[i])])
+VZero(n) == Tup([i \in 1..n |-> Zero])
 VBad(v) == \E i \in 1..Len(v) : IsBad(v[i])
 
 RECURSIVE SumTo(_, _, _)
@@ -92,5 +96,5 @@ RECURSIVE SumTo(_, _, _)
 SumTo(f, lo, hi) == IF lo > hi THEN Zero ELSE Add(f[lo], SumTo(f, lo + 1, hi))
 SumSeq(s) == SumTo(s, 1, Len(s))
 
-Dot(v, w) == SumSeq([i \in 1..Len(v) |-> Mul(v[i], w[i])])
+Dot(v, w) == SumSeq(Tup([i \in 1..Len(v) |-> Mul(v[i], w[i])]))
 =============================================================================
